@@ -48,6 +48,14 @@ PROPS = {
         rule='listener histories as C13; 4-16 goroutines × 6000-21000 round-robin selections with concurrent peer counter updates; 8 goroutines re-evaluating 160-200 matcher cases (incl. well-formed OpenVPN tls-auth resets on one matcher instance); non-trivial = history completed',
         assumptions=['a race needs the two accesses to actually overlap in a run to be reported by the detector'],
     ),
+    "C09": dict(
+        lean_modules=["L4.Props.C09", "L4.Expect.C09"],
+        stages=[dict(name="udp", pkg="./layer4/", test="TestVerifUDP", files=L4 + ["layer4/verif_udp_test.go"], nq=24, nt=400, lean=False)],
+        level_text="Kernel-checked on a transition system of servePacket / packetConn (reader goroutine, packets / readCh / closeCh with their capacities, association table, done flag, idle expiry, Close) for every interleaving over any number of client addresses: every datagram an association receives was sent by its own client, associations receive in arrival order without duplication, the table always points to an association of that address, a closed association never receives a later datagram (a fresh one is started), and no channel is ever closed while it may be sent to (the loop never crashes). The invariant (10 conjuncts) is preserved by all six actions. The structural fact `Close does not close readCh` is regenerated from the source; the real loop is driven over loopback sockets with 1-6 clients, bursts beyond the channel capacities and four handler behaviours, and judged for ownership, order, reply routing, one live association per client, freshness after end and survival. The pre-repair protocol's crash trace is kept as a kernel-checked witness.",
+        level_note='Trusted: Lean kernel, harness, Go channel semantics as modelled, the OS delivering loopback datagrams in order. Partial: datagram loss when an association closes with a full queue is allowed by the model (UDP); the 30 s idle timer is modelled as an action but not exercised in real time; histories are judged by oracle, not replayed through the model.',
+        rule='histories: 1-6 client sockets × 3-120 datagrams each (paced or in bursts of 16) plus two late datagrams, handler modes echo / return after one datagram / close then linger / read in 5-byte pieces, leave one half read and close twice; non-trivial = history completed; distinct = distinct summaries',
+        assumptions=['loopback UDP does not reorder datagrams of one socket'],
+    ),
     "C12": dict(
         lean_modules=["L4.Props.C12", "L4.Expect.C12"],
         stages=[
